@@ -125,6 +125,23 @@ where
     if !c.against("to_generic_decoder_model.symbol_table", table_via_iter::<_, P>(&gd, n + 4)) {
         return;
     }
+    // the accessors hand out the parts the model was made of: same support, and quantising the
+    // same distribution again with the quantizer the model returns gives the same model
+    if model.support() != (sym_from::<S>(lo)..=sym_from::<S>(hi)) {
+        c.run.violation("representations-differ", "C05/quantized/support", format!("{desc} :: support() reports {:?}", model.support()));
+        return;
+    }
+    let quantizer = qc.model.clone().quantizer();
+    if quantizer.support() != (sym_from::<S>(lo)..=sym_from::<S>(hi)) {
+        c.run.violation("representations-differ", "C05/quantized/support", format!("{desc} :: quantizer().support() reports {:?}", quantizer.support()));
+        return;
+    }
+    let inner = qc.model.into_inner();
+    inner.reset();
+    let again = quantizer.quantize(inner);
+    if !c.against("quantizer().quantize(into_inner())", table_via_encoder::<_, P>(&again, support())) {
+        return;
+    }
     let compared = c.compared;
     run.count("representations_compared", compared);
     if compared >= 3 {
@@ -250,6 +267,40 @@ where
         if !c.against("non-contiguous decoder.as_view", table_via_decoder::<_, P>(&m.as_view(), n + 4)) {
             return;
         }
+        if m.support_size() != n {
+            c.run.violation("representations-differ", "C05/categorical/support_size", format!("{desc} :: non-contiguous decoder reports support_size {} for {n} symbols", m.support_size()));
+            return;
+        }
+        // generic conversions of the non-contiguous model (its own IterableEntropyModel impl)
+        if !c.against("non-contiguous decoder.to_generic_encoder_model", table_via_encoder::<_, P>(&m.to_generic_encoder_model(), 0..n)) {
+            return;
+        }
+        if !c.against("non-contiguous decoder.to_generic_decoder_model", table_via_decoder::<_, P>(&m.to_generic_decoder_model(), n + 4)) {
+            return;
+        }
+        // the same model through a shared reference (the forwarding impls for &M)
+        let r = &m;
+        if !c.against("&non-contiguous decoder .symbol_table", table_via_iter::<_, P>(&r, n + 4)) {
+            return;
+        }
+        let g = IterableEntropyModel::<P>::to_generic_decoder_model(&r);
+        if !c.against("&non-contiguous decoder .to_generic_decoder_model", table_via_decoder::<_, P>(&g, n + 4)) {
+            return;
+        }
+    }
+    {
+        let r = &eager;
+        if !c.against("&eager .symbol_table", table_via_iter::<_, P>(&r, n + 4)) {
+            return;
+        }
+        let g = IterableEntropyModel::<P>::to_generic_encoder_model(&r);
+        if !c.against("&eager .to_generic_encoder_model", table_via_encoder::<_, P>(&g, 0..n)) {
+            return;
+        }
+        let g = IterableEntropyModel::<P>::to_generic_decoder_model(&r);
+        if !c.against("&eager .to_generic_decoder_model", table_via_decoder::<_, P>(&g, n + 4)) {
+            return;
+        }
     }
     if let Ok(m) = NonContiguousCategoricalEncoderModel::<usize, Pr, P>::from_symbols_and_floating_point_probabilities_fast(0..n, &v, None) {
         if !c.against("non-contiguous encoder (identity labels)", table_via_encoder::<_, P>(&m, 0..n)) {
@@ -330,6 +381,18 @@ where
     }
     if let Ok(m) = NonContiguousLookupDecoderModel::<usize, Pr, Vec<(Pr, usize)>, Box<[Pr]>, P>::from_symbols_and_floating_point_probabilities_fast(0..n, &v, None) {
         if !c.against("NonContiguousLookup::fast identity labels (quantile walk)", table_via_decoder::<_, P>(&m, n + 4)) {
+            return;
+        }
+        if !c.against("NonContiguousLookup.as_view (quantile walk)", table_via_decoder::<_, P>(&m.as_view(), n + 4)) {
+            return;
+        }
+        if !c.against("NonContiguousLookup.symbol_table", table_via_iter::<_, P>(&m, n + 4)) {
+            return;
+        }
+        if !c.against("NonContiguousLookup.as_non_contiguous_categorical (quantile walk)", table_via_decoder::<_, P>(&m.as_non_contiguous_categorical(), n + 4)) {
+            return;
+        }
+        if !c.against("NonContiguousLookup.into_non_contiguous_categorical (quantile walk)", table_via_decoder::<_, P>(&m.into_non_contiguous_categorical(), n + 4)) {
             return;
         }
     }
